@@ -888,10 +888,12 @@ theorem Inv.onCreated {c : Cfg} {s : Node} (h : Inv c s) (id ident : Nat) (ok : 
   · simp only
     split
     · exact ⟨h.time, h.circ, h.relay, h.exit, h.closed, h.noleak⟩
-    · refine ⟨h.time, h.circ, ?_, ?_, ?_, h.noleak⟩
-      · exact (h.relay.put _ _ (fun _ => RelayInv.new h.time _ _)).put _ _ (fun _ => RelayInv.new h.time _ _)
-      · exact h.modExits _ _ (fun e _ hp hl => ExitInv.remove true hp hl)
-      · exact h.closedMod _ _ (fun e hg => Closed.remove true hg)
+    · split
+      · exact ⟨h.time, h.circ, h.relay, h.exit, h.closed, h.noleak⟩
+      · refine ⟨h.time, h.circ, ?_, ?_, ?_, h.noleak⟩
+        · exact (h.relay.put _ _ (fun _ => RelayInv.new h.time _ _)).put _ _ (fun _ => RelayInv.new h.time _ _)
+        · exact h.modExits _ _ (fun e _ hp hl => ExitInv.remove true hp hl)
+        · exact h.closedMod _ _ (fun e hg => Closed.remove true hg)
   · exact h.onOurs id ident ok next
 
 theorem Inv.onExtend {c : Cfg} {s : Node} (h : Inv c s) (id reqId toId toPeer : Nat) (candOk : Bool) :
@@ -1105,7 +1107,9 @@ theorem Emits.onCreated {c : Cfg} (s : Node) (id ident : Nat) (ok : Bool) (next 
     split
     · exact Emits.silent rfl
     · rename_i x hx
-      exact Emits.single _ rfl (Or.inr (Or.inr (known_of_exit hx)))
+      split
+      · exact Emits.silent rfl
+      · exact Emits.single _ rfl (Or.inr (Or.inr (known_of_exit hx)))
   · exact Emits.onOurs s id ident ok next
 
 theorem Emits.onExtend {c : Cfg} (s : Node) (id reqId toId toPeer : Nat) (candOk : Bool) :
